@@ -201,7 +201,7 @@ class Rule_RF05(BaseRule):
         # redshift allows a # at the beginning of temporary table names
         if (
             context.dialect.name == "redshift"
-            and identifier[0] == "#"
+            and identifier.startswith("#")
             and context.parent_stack
             and context.parent_stack[-1].is_type("table_reference")
         ):
